@@ -560,6 +560,18 @@ class Check(Property):
                                 v.append(f"C10 file {c['file']} [{c['variant']}] context {nm}: default n is {dflt!r} ({type(dflt).__name__}), written {cx['n']}")
                         except Exception as exc:  # noqa: BLE001
                             v.append(f"C10 file {c['file']} [{c['variant']}] context {nm}: defaults not readable: {type(exc).__name__}")
+                if proj.defaults.get("group") and c["variant"] in ("file", "cache-cold", "cache-warm"):
+                    # (defaults are applied when a registry is constructed from its definitions)
+                    # the default group holds exactly the units that no @group block defines
+                    ingroups = {b["name"] for g in proj.groups for b in g["body"] if b["kind"] == "unit"}
+                    want = {r_["name"] for r_ in proj.units} - ingroups
+                    try:
+                        got = {x for x in u.get_group(proj.defaults["group"], False).members if not x.startswith("delta_")}
+                        if got != {x for x in want if not x.startswith("delta_")}:
+                            v.append(f"C10 file {c['file']} [{c['variant']}] default group {proj.defaults['group']}: members "
+                                     f"{sorted(got)}, the units outside every @group block are {sorted(want)}")
+                    except Exception as exc:  # noqa: BLE001
+                        v.append(f"C10 file {c['file']} [{c['variant']}] default group: raised {type(exc).__name__}: {exc}")
                 for g in proj.groups:
                     want = {b["name"] for b in g["body"] if b["kind"] == "unit"}
                     for used in g["using"]:
